@@ -189,6 +189,22 @@ def interpolant(repo, rep, tier):
         if not rets:
             rep.inconcl("R-INTERPOLANT", site, "n=%d: __call__ has no value-returning path" % n)
             return
+        # (e) abscissae outside the table are refused: on the table X_i = i no value-returning path of __call__ / derivative is taken for
+        #     x = -1 or x = n (their path conditions are executed; the ordinates play no part in them)
+        for what_, oo_ in (("__call__", outs), ("derivative", douts)):
+            try:
+                for xv in (Fraction(-1), Fraction(n)):
+                    env_ = {X: xv, "$memo": {}}
+                    env_.update({xs[1 + i]: Fraction(i) for i in range(n)})
+                    taken = [o for o in oo_ if o.kind == "ret" and eval_exact(o.cond, dict(env_)) is True]
+                    if taken:
+                        rep.violation("R-INTERPOLANT", "%s.%s.%s" % (MOD, CLS, what_), "outside-accepted:%s:n=%d" % (what_, n),
+                                      "table of %d points with abscissae 0..%d: %s(%s) returns a value although the abscissa lies outside the table "
+                                      "(abscissae outside the table must be refused with ValueError)" % (n, n - 1, what_, xv), obligation=True)
+                        return
+            except (NotEvaluable, TypeError, ValueError, KeyError) as e:
+                rep.inconcl("R-INTERPOLANT", "%s.%s.%s" % (MOD, CLS, what_), "n=%d: refusal of outside abscissae not executable: %s" % (n, e))
+                break
         alg = Algebra()
         general = []
         for o in rets:
